@@ -70,7 +70,9 @@ CLAIMED = {
  "C16": dict(
    tech="TLA+ spec BillStat.tla model-checked by TLC; TLC-generated and seeded action sequences replayed on the real RuntimeRecorder through a gating Uploader; recorded traces validated by TLC (TraceBillStat.tla)",
    text="TLC enumerates every interleaving of Record / reset / upload-ok / upload-fail for 2-3 devices and up to two overlapping refreshes and checks conservation, no-double-count and metadata-latest in every state; the same actions are forced on the real recorder (the Uploader is the gate) and every observed state is checked by TLC against the spec, so a code change that breaks conservation on some interleaving is rejected at the step where it diverges.",
-   note=TRUST + "r.records is read under r.mu; the scripted Uploader is the only exit of records; the free-running stress only validates quiescent totals.", ref="6 C16"),
+   note=TRUST + "r.records is read under r.mu; the scripted Uploader is the only exit of records; the free-running stress only validates quiescent totals.  "
+        "Beyond TLC's bounds: the integer abstraction BillCounter.tla has an inductive invariant (conservation) discharged by Apalache in every run; "
+        "its refinement from BillStat.tla is stated, not machine-checked.", ref="6 C16"),
  "C17": dict(
    tech="TLA+ spec Forward.tla (refresh as probe-by-probe then swap, per-upstream back-off ages, free health environment) model-checked by TLC incl. liveness ReturnsAfterRecovery and two sanity configs; TLC-generated and seeded schedules run on the real forward.Handler with scripted upstreams under a virtual clock; traces validated by TLC (TraceForward.tla)",
    text="TLC explores all schedules of health changes (up / servfail / network error / mismatching reply) of 2 mains and 0-1 fallbacks, clock ticks, refresh rounds whose probes interleave with queries, and checks answered-by-chosen-main, fallback exactly once on network error or empty active set, SERVFAIL only if everything tried failed, active = probed-OK outside a refresh, no probe inside the back-off, never demoted without fallbacks, and (under fairness) return after recovery. The real Handler (upstreams replaced in-package by scripted ones; queries also issued from inside a probe's exchange, i.e. between two probes) is driven through those schedules and every probe, refresh result and query (which upstreams saw it, who answered) is explained by the spec.",
@@ -78,7 +80,7 @@ CLAIMED = {
  "C18": dict(
    tech="TLA+ specs ConnLimiter.tla (explicit condition variable) and Pipeline.tla model-checked by TLC incl. liveness; action sequences replayed on real limitListeners (inner listener as gate, parked goroutines from runtime.Stack) and on real TCP/DoT servers; traces validated by TLC with silent TryInc steps",
    text="TLC explores all interleavings of accept / park / wake / inner accept / close / double close / listener shutdown for 2-3 listeners and every stop>=resume up to 4 and checks bound, exact counter, hysteresis, no lost wake-up and release of waiters; sanity configs show that the two defects of the pinned tree (Signal, slot taken before the closed check) are expressible. Real limiters are then driven through TLC-generated and random schedules and every quiescent state is matched by TLC against the spec; pipeline bursts on real servers are validated against Pipeline.tla.",
-   note=TRUST + "runtime.Stack goroutine states for 'parked in Cond.Wait'; the harness acts at quiescent points, finer interleavings are covered by the model and by free-running stress summaries.", ref="6 C18"),
+   note=TRUST + "runtime.Stack goroutine states for 'parked in Cond.Wait'; the harness acts at quiescent points, finer interleavings are covered by the model and by free-running stress summaries.  Beyond TLC's bounds: the integer abstraction ConnCounter.tla (counter = open + pending accepts <= stop, all thresholds) has an inductive invariant discharged by Apalache in every run; its refinement from ConnLimiter.tla is stated, not machine-checked.", ref="6 C18"),
  "C19": dict(
    tech="TLA+ decision spec LinkedIP.tla (contract from doc/http.md + RFC 3986 dot-segment removal, and the implementation-shaped shouldProxy rule) enumerated completely by TLC; raw HTTP requests sent to the real handler, every recorded line validated by TLC (TraceLinkedIP.tla)",
    text="TLC enumerates all 6 methods x all paths of up to 5 segments over {linkip, ddns, status, id, empty, ., ..} and proves that the implementation-shaped rule stays inside the contract and that the contract implies the four-shapes / stays-under-prefix clauses; a sanity config shows the pinned tree's rule leaves the contract. Every abstract vector is then concretised (encoded dots, encoded slashes, case variants, forged header subsets, distinct loopback peers), sent raw over TCP to the real handler and TLC checks per line what the recording backend received.",
